@@ -39,7 +39,10 @@ def verdict(O, out, tag, r, strict, tolerant, message):
 OPT_SRC = '''
 def run(v, O):
     fu = ref_units(v.unit)[0] if v.unit else 1.0
-    opts = [getattr(v, f'o{i}') for i in range(len(v.ounits))]
+    if getattr(v, 'same', False):
+        opts = [v.o0 for _ in v.ounits]          # the same number listed under several units
+    else:
+        opts = [getattr(v, f'o{i}') for i in range(len(v.ounits))]
     lines = [f'w {v.dtype} = {O.lit(v.v0)}' + (f' {v.unit}' if v.unit else '')]
     if v.listform:
         groups = {}
@@ -163,6 +166,14 @@ def scenarios(tier, seed):
                         S.append(Scenario(f'options/{dtype}/{unit}/{nopt}/{"list" if listform else "lines"}/{nmods}', OPT_SRC, inp,
                                           consts={'unit': unit, 'ounits': ous[:nopt], 'listform': listform, 'nmods': nmods, 'dtype': dtype}, preamble=PRE,
                                           what=f'{dtype} node in {unit} with {nopt} options in {ous[:nopt]} ({"!options" if listform else "per line"}), {nmods} modifications', samples=2))
+    for unit, ous in (('m', ['cm', 'm']), ('m', ['m', 'cm', 'km']), ('J', ['kJ', 'J'])):
+        for listform in (False, True):
+            for nmods in (0, 1):
+                inp = {'v0': 'real', 'o0': 'real'}
+                inp.update({f'm{i}': 'real' for i in range(nmods)})
+                S.append(Scenario(f'options-same-number/{unit}/{"-".join(ous)}/{"list" if listform else "lines"}/{nmods}', OPT_SRC, inp,
+                                  consts={'unit': unit, 'ounits': ous, 'listform': listform, 'nmods': nmods, 'dtype': 'float', 'same': True}, preamble=PRE,
+                                  what=f'float node in {unit} whose options repeat one number under the units {ous}', samples=2))
     for unit, bunit in (('m', None), ('m', 'cm'), ('J', 'erg'), (None, None)):
         for op in ('lt', 'le', 'gt', 'ge', 'eq', 'ne', 'range', 'or', 'rev'):
             for nmods in (0, 1):
